@@ -120,4 +120,34 @@ theorem chain_from (v : Variant) {keys : List String} (hs : Sorted keys) (hne : 
       · refine ⟨?_, rfl, trivial⟩
         simp only [List.length_take, List.length_drop, hsdef]; omega
 
+theorem listPageMasked_eq (v : Variant) (keys : List String) (tok : Tok) (size : Int) (vis : Bool) :
+    listPageMasked v keys tok size vis =
+      match listPage v keys tok size with
+      | .ok p => .ok (p.display vis)
+      | .err c => .err c
+      | .panic => .panic := by
+  unfold listPageMasked Page.display
+  cases listPage v keys tok size <;> rfl
+
+theorem chainMasked_eq (v : Variant) (keys : List String) (size : Nat → Int) (vis : Bool) :
+    ∀ fuel i tok, chainMasked v keys size vis fuel i tok =
+      (chain v keys size fuel i tok).map (·.map (Page.display vis)) := by
+  intro fuel
+  induction fuel with
+  | zero => intro i tok; rfl
+  | succ fuel ih =>
+    intro i tok
+    unfold chainMasked chain
+    rw [listPageMasked_eq]
+    cases h : listPage v keys tok (size i) with
+    | ok p =>
+      simp only [Page.display]
+      cases hn : p.next with
+      | none => simp [Page.display, hn]
+      | some k =>
+        simp only [ih]
+        cases chain v keys size fuel (i + 1) (Tok.key k) <;> simp [Page.display, hn]
+    | err c => rfl
+    | panic => rfl
+
 end ScVerif.C15
